@@ -10,13 +10,26 @@ import vlib
 PID = "C05"
 THEOREMS = ["C05_total", "C05_streaming_dlw", "C05_streaming_mpx", "C05_streaming_mpx_any_partition", "C05_placement",
             "C05_any_partition", "C05_confinement", "C05_confinement_init", "C05_valid_chunks_untouched", "C05_verified",
-            "C05_verified_init", "C05_mismatch_zeroed", "C05_streaming_refuted_zero_length"]
+            "C05_verified_init", "C05_mismatch_zeroed", "C05_streaming_refuted_zero_length",
+            "C05_lit_decodes_next", "C05_lit_contract", "C05_lit_finds_range", "C05_parse_dec_value", "C05_header_boundary",
+            "C05_mp_prefix", "C05_mp_any_partition", "C05_mp_placement", "C05_transfer"]
 ASSUMPTIONS = [
     "models Dl/DlWrite.v and Dl/Multipart.v are hand transcriptions of dl_write_range / multipart_extract / "
     "multipart_get_boundary and the two callbacks, tied by differential execution on every case",
-    "hash H and POSIX regex (rx_comp, rx_exec) are Section variables of the model; the OCaml driver instantiates them "
-    "with OpenSSL EVP and glibc regcomp/regexec on the patterns built in Gallina from the templates regenerated from "
-    "multipart.c (REGEX_NEXT/REGEX_END/REGEX_BOUNDARY)",
+    "hash H is a Section variable of every theorem (no property of the hash is assumed); the OCaml driver instantiates it "
+    "with OpenSSL EVP",
+    "POSIX regex: the streaming, safety, confinement and verification theorems quantify over every oracle rx_comp/rx_exec; "
+    "the multipart placement theorems (C05_mp_*) are about the model instantiated with Dl/LiteralMatcher.v (lit_exec), a "
+    "Gallina rendering of the meaning of the three patterns built from the templates regenerated from multipart.c "
+    "(REGEX_NEXT/REGEX_END/REGEX_BOUNDARY, boundary escaped with REGEX_ESCAPE_SET). TRUSTED: that glibc regexec computes "
+    "what lit_exec computes; guarded at run time: the driver runs the model with glibc regcomp/regexec and compares "
+    "lit_exec with it on every distinct (pattern, string) pair of every case plus 20 000 (thorough 300 000) generated "
+    "strings (several/partial/overlapping content-range occurrences, delimiters, case and space variants, header lines); "
+    "any disagreement is a correspondence violation; the count is in coverage.literal_matcher_vs_glibc",
+    "well-formed multipart body = Dl/MpGrammar.v: parts '[junk without CR/LF/NUL][CRLF]--B CRLF {line CRLF} Content-Range "
+    "line CRLF {line CRLF} CRLF payload', closing 'CRLF--B--CRLF'; restrictions: boundary and extra header lines without "
+    "CR/LF/NUL, no 'content-range:' in the extra lines AFTER the Content-Range line (the last occurrence wins in the "
+    "pattern), no preamble line break directly before a delimiter line other than its own CRLF, payload arbitrary",
     "I/O is fault free in this model (seek/write always succeed; C12 covers faults); int wb truncation in dl_write "
     "needs a >= 2 GiB in-memory buffer and is out of scope",
     "streaming theorems need non-empty fragments and no zero-length entries in the range index; zck_get_missing_range (after fix 1261c1f) never creates one, the refuted example documents what happened before",
@@ -552,6 +565,58 @@ def replay_cases(only_case):
     return out
 
 
+def swapcase_some(rng, b):
+    return bytes((c ^ 0x20) if (65 <= (c & 0xdf) <= 90 and rng.random() < 0.4) else c for c in b)
+
+
+def matcher_lines(rng, n):
+    """strings aimed at the case splits of Dl/LiteralMatcher.v: several / partial / overlapping content-range
+    occurrences, delimiters before and after them, case and space variants, the closing delimiter, header lines"""
+    bs = [b"zck17boundary", b"x", b"a.b(c", b"(paren)", b"AbC", b"b[1]^$", b"\\back", b"\x80\xfe\xc3\xa9", b"content-range:",
+          b"--", b"- -", b"++"]
+    out = []
+    for _ in range(n):
+        b = rng.choice(bs)
+        kind = rng.choice("nnnnneh")
+        if kind in "ne":
+            toks = [b"\r\n", b"\r\n", b"--" + b + b"\r\n", b"\r\n--" + b + b"\r\n", b"--" + b + b"--", b"\r\n--" + b + b"--\r\n",
+                    b"--" + b, b + b"\r\n", b"Content-Range: bytes 1-2/3", b"content-range:bytes 10 - 20 /30", b"--" + b + b"\r\n",
+                    b"content-range:", b"Content-Range: ", b"bytes", b" bytes ", b" ", b"  ", b"-", b"/",
+                    b"0", b"17", b"4294967296", b"Content-Range: bytes 1-2/3", b"content-range:bytes 10 - 20 /30",
+                    b"CONTENT-RANGE:   BYTES   5-6/7", b"Content-Range: bytes 1-2/", b"Content-Range: bytes -2/3",
+                    b"Content-Range: bytes 1-/3", b"Content-Type: text/plain", b"c", b"C", b"ontent-range:", b"\r", b"\n",
+                    b"x", b"\x01", b"\xff"]
+        else:
+            toks = [b"boundary=", b"boundary = ", b"BOUNDARY=\"", b"\r", b"\r\n", b"boundary", b"Boundary", b"BOUNDARY", b"=", b" =", b"= ", b" ", b"  ", b"\r", b"\n", b"\r\n", b"\"", b + b"",
+                    b"Content-Type: multipart/byteranges; ", b"; charset=x", b"b", b"oundary", b"x", b"==", b"\t"]
+        s = b"".join(swapcase_some(rng, rng.choice(toks)) if rng.random() < 0.5 else rng.choice(toks)
+                     for _ in range(rng.randrange(1, 14)))
+        s = s.replace(b"\x00", b"")
+        out.append("M %s %s %s" % (kind, vlib.hexs(b), vlib.hexs(s)))
+    return out
+
+
+def matcher_fuzz(res, tier, rng, wd, pid="C05", pfx="c05"):
+    """Dl/LiteralMatcher.v against glibc regexec on generated strings (model side only)"""
+    lines = matcher_lines(rng, 20000 if tier == "quick" else 300000)
+    model = vlib.ensure_model(pid)
+    out, _ = run_exe(model, lines, wd, "lm")
+    d = res.extra.setdefault("literal_matcher_vs_glibc", {"pairs_compared": 0, "agree": 0})
+    for l, o in zip(lines, out):
+        m = re.search(r"LM=(\d+)/(\d+)(?: BAD=(\S+))?", o)
+        if not m:
+            res.violation("harness", pfx + ":lm-badline", "matcher comparison did not run: %r" % o[:200], {"line": l})
+            break
+        d["pairs_compared"] += int(m.group(2))
+        d["agree"] += int(m.group(1))
+        if m.group(3):
+            pat, st = m.group(3).split(":")
+            res.violation("correspondence", pfx + "-lm:" + hashlib.sha256(m.group(3).encode()).hexdigest()[:16],
+                          "Dl/LiteralMatcher.v and glibc regexec disagree on pattern %r, string %r"
+                          % (bytes.fromhex(pat), bytes.fromhex(st)[:300]), {"line": l, "pattern": pat, "string": st})
+    res.evaluations += len(lines)
+
+
 def run(res, tier, only_case=None):
     rng = vlib.Rng(vlib.seed())
     res.rule = ("requests: every subset of missing chunks of 2-6 (thorough 8) chunk tables, answered as one plain range or as "
@@ -566,7 +631,11 @@ def run(res, tier, only_case=None):
         cases = gen_cases(tier, rng)
     wd = vlib.scratch(PID)
     big = lambda c: c.parts == "all2" and len(c.body) > 160
-    mo, io, asan, ierr, aerr = run_all(cases, tier, wd, "C05", asan_filter=lambda c: not big(c) or tier == "thorough")
+    import zlib
+    # quick tier: the sanitized build skips the long 2-cut sweeps and two thirds of the single-cut sweeps over the
+    # boundary spellings (the plain build runs them all); thorough runs everything under ASan/UBSan too
+    light = lambda c: not big(c) and not (c.kind == "boundary" and c.parts == "all1" and zlib.crc32(c.name.encode()) % 3)
+    mo, io, asan, ierr, aerr = run_all(cases, tier, wd, "C05", asan_filter=lambda c: tier == "thorough" or light(c))
     parsed = []
     for k, c in enumerate(cases):
         p = check_case(res, c, mo[k] if k < len(mo) else None, io[k], asan.get(k))
@@ -574,6 +643,10 @@ def run(res, tier, only_case=None):
         if c.parts != "w":
             res.nontrivial.add(c.name)
     group_check(res, cases, parsed)
+    if only_case is None:
+        matcher_fuzz(res, tier, vlib.Rng(vlib.seed() + 5), wd)
+    elif only_case["case"].get("line", "").startswith("M "):
+        pass
     for k in (0, len(cases) // 3, len(cases) // 2, len(cases) - 1):
         if cases:
             res.sample({"case": cases[k].name, "line": cases[k].line()[:300], "impl": io[k][:300]})
